@@ -723,7 +723,7 @@ def finish_ess(ctx, lines, pend):
         if exact != T.ess():
             ctx.disagree("Lean ESS differs from the exact Kish value computed with Python fractions",
                          {"line": line[:300], "model": out, "case": case})
-        if not abs(Fraction(real) - exact) <= Fraction(ESS_TOL) * exact:
+        if not math.isfinite(real) or not abs(Fraction(real) - exact) <= Fraction(ESS_TOL) * exact:
             ctx.disagree(f"{what}: real {real!r} differs from the exact model value by more than 1e-9 relative",
                          {"line": line[:300], "model": out[:200], "impl": repr(real), "case": case})
         if what == "ess":
